@@ -28,18 +28,46 @@ func Configs() [][2]int {
 // then `extra` tasks are pushed to lane k. Each of them must start (and finish) within the bound
 // although lane k's own worker may be among the pinned ones.
 func (en *Engine) WorkSharing(n, q int, pinLanes []int, k, extra int) {
+	en.workSharing(n, q, pinLanes, k, extra, false)
+}
+
+// WorkSharingOneP is WorkSharing in a process limited to one P: GOMAXPROCS(1) is set BEFORE New (the lane may look
+// at it) and kept for the whole scenario. The blockers are channel-gated tasks: they use no CPU, so an idle
+// worker can and must pick up the waiting tasks also on a single P.
+func (en *Engine) WorkSharingOneP(n, q int, pinLanes []int, k, extra int) {
+	en.workSharing(n, q, pinLanes, k, extra, true)
+}
+
+func (en *Engine) workSharing(n, q int, pinLanes []int, k, extra int, oneP bool) {
 	const fam = "sharing"
 	name := sname(fam, n, q, "pin", pinLanes, "to", k, "x", extra)
+	if oneP {
+		name += "/oneP"
+	}
 	if en.Skip(fam, name) {
 		return
 	}
 	r := en.New(fam, name, n, q)
 	defer en.Finish(fam, r)
+	if oneP {
+		old := runtime.GOMAXPROCS(1)
+		defer runtime.GOMAXPROCS(old)
+		en.E.Count("sharing_runs_on_one_P", 1)
+	}
 	r.Start(longTimeout)
+	en.sharingBody(r, pinLanes, k, extra, true)
+	en.Shutdown(r, false)
+}
+
+// sharingBody: pin the workers of pinLanes with never-ending tasks, push `extra` tasks to lane k, each must run.
+// alone: this lane is the only one in the process (the goroutine dump can then be used to wait until every idle
+// worker sits in its blocking select, which makes the pin land on the lane's own worker).
+func (en *Engine) sharingBody(r *Run, pinLanes []int, k, extra int, alone bool) bool {
+	n := r.N
 	for i, l := range pinLanes {
 		// every idle worker parked in its blocking select: the queue goroutine's first (non-blocking) offer
 		// to its own worker succeeds, so the task pushed to lane l pins worker l
-		if !WaitUntil(100*time.Millisecond, func() bool { return workersBlockedInSelect() == n-i }) {
+		if alone && !WaitUntil(100*time.Millisecond, func() bool { return workersBlockedInSelect() == n-i }) {
 			// the task may then pin another worker than worker l (still |P| pinned workers): count it, give it more time once
 			en.E.Count("sharing_pin_idle_workers_not_in_select_after_100ms", 1)
 			if !WaitUntil(400*time.Millisecond, func() bool { return workersBlockedInSelect() == n-i }) {
@@ -49,13 +77,11 @@ func (en *Engine) WorkSharing(n, q int, pinLanes []int, k, extra int) {
 		t := r.NewTask(true, 0, false)
 		if res := r.Push(t, l); res != "ok" {
 			r.Violation("push-of-pinning-task failed: %s", res)
-			en.Shutdown(r, false)
-			return
+			return false
 		}
 		if !WaitUntil(LiveBound, func() bool { return r.Started(t) }) {
-			r.Violation("sharing: task %d pushed to lane %d not started within %v while %d of %d workers are idle", t.ID, l, LiveBound, n-len(pinLanes)+1, n)
-			en.Shutdown(r, false)
-			return
+			r.Violation("sharing: task %d pushed to lane %d not started within %v while %d of %d workers are idle", t.ID, l, LiveBound, n-i, n)
+			return false
 		}
 	}
 	var ts []*Task
@@ -65,22 +91,62 @@ func (en *Engine) WorkSharing(n, q int, pinLanes []int, k, extra int) {
 		if res := r.Push(t, k); res != "ok" {
 			// with a free worker the lane drains: a push with a 30 s timeout cannot fail
 			r.Violation("sharing: push of task %d to lane %d returned %s while %d workers are idle", t.ID, k, res, n-len(pinLanes))
-			en.Shutdown(r, false)
-			return
+			return false
 		}
 	}
 	for _, t := range ts {
 		if !WaitUntil(LiveBound, func() bool { return r.Finished(t) }) {
 			r.Violation("sharing: task %d waits at lane %d (its worker may be pinned) for more than %v while %d of %d workers are idle", t.ID, k, LiveBound, n-len(pinLanes), n)
-			break
+			return false
 		}
 	}
-	if len(r.viols) == 0 {
-		if last, ok := r.PendingSettles(0, LiveBound); !ok {
-			r.Violation("pending-exact: lane at rest with every accepted task started, PendingTask=%d want 0", last)
-		}
+	if last, ok := r.PendingSettles(0, LiveBound); !ok {
+		r.Violation("pending-exact: lane at rest with every accepted task started, PendingTask=%d want 0", last)
 	}
-	en.Shutdown(r, false)
+	return true
+}
+
+// ---------------------------------------------------------------- C08: idle for a long time, then share
+
+// IdleProbe creates lanes at the very beginning of the process, leaves them completely idle for `idle` (the
+// family runs in a process of its own, in parallel to the other families, so this costs no wall time), and only
+// then runs the pinned-worker sharing scenario on each: whatever a lane does with goroutines that have nothing
+// to do, a task waiting behind a busy worker must still be picked up by an idle one.
+func (en *Engine) IdleProbe(idle time.Duration, configs [][2]int) {
+	const fam = "idleprobe"
+	t0 := time.Now()
+	var runs []*Run
+	for _, c := range configs {
+		name := sname(fam, c[0], c[1], idle)
+		if en.Skip(fam, name) {
+			continue
+		}
+		r := en.New(fam, name, c[0], c[1])
+		r.Start(longTimeout)
+		runs = append(runs, r)
+	}
+	if d := idle - time.Since(t0); d > 0 {
+		time.Sleep(d)
+	}
+	en.E.Stats["idle_probe_idle_s"] = float64(int(time.Since(t0).Seconds()*10)) / 10
+	for i, r := range runs {
+		// pin worker 0 through lane 0, then everything to lane 0 (its worker is busy): the others must help
+		en.sharingBody(r, []int{0}, 0, r.Q+2, false)
+		r.Cancel(en.ctxErr())
+		r.Push(r.NewTask(false, 0, false), 0)
+		r.G.Open()
+		r.ReleaseAll()
+		if !r.AwaitCalls(LiveBound) {
+			r.stuck.Store(true)
+			r.Violation("producer-not-released-after-cancel within %v", LiveBound)
+		}
+		if !r.Wait(LiveBound) {
+			r.Violation("wait-did-not-return within %v after cancel and release of all running tasks", LiveBound)
+		} else if i == len(runs)-1 {
+			r.Leaks() // the other probe lanes are gone by now: the dump is this process's
+		}
+		en.Finish(fam, r)
+	}
 }
 
 // ---------------------------------------------------------------- C07: cancel at every park point
@@ -650,7 +716,12 @@ func (en *Engine) PushAfterCancelRoom(n, q, variant int) {
 // SharingSubsets: for every target lane L and every set P of pinned workers with L in P and |P| < n,
 // everything is pushed to lane L and must start on a worker outside P (laneSize >= 3 distinguishes a
 // shared channel from "own worker or ring neighbour").
-func (en *Engine) SharingSubsets(n, q int) {
+func (en *Engine) SharingSubsets(n, q int) { en.sharingSubsets(n, q, false) }
+
+// SharingSubsetsOneP: the same on a single P (GOMAXPROCS(1) before New).
+func (en *Engine) SharingSubsetsOneP(n, q int) { en.sharingSubsets(n, q, true) }
+
+func (en *Engine) sharingSubsets(n, q int, oneP bool) {
 	for L := 0; L < n; L++ {
 		for mask := 0; mask < 1<<n; mask++ {
 			if mask&(1<<L) == 0 {
@@ -665,7 +736,7 @@ func (en *Engine) SharingSubsets(n, q int) {
 			if len(P) >= n {
 				continue
 			}
-			en.WorkSharing(n, q, P, L, q+2)
+			en.workSharing(n, q, P, L, q+2, oneP)
 		}
 	}
 }
